@@ -391,6 +391,9 @@ func runC05(r *RunCtx) error {
 	if err := c05PersistedParams(r); err != nil {
 		return err
 	}
+	if err := c05Strikes(r); err != nil {
+		return err
+	}
 	// ------------------------------------------------------------------ (c1) a few enormous (declared) files
 	if err := c05HugeFiles(r); err != nil {
 		return err
